@@ -77,7 +77,12 @@ func init() {
 			}
 		}
 		seenV := map[string]bool{}
+		zones := []*time.Location{time.UTC, time.FixedZone("plus1", 3600), time.FixedZone("minus5", -5*3600), time.FixedZone("plus14", 14*3600), time.FixedZone("minus12", -12*3600)}
+		zi := 0
 		addValid := func(domain string, t time.Time, why string) bool {
+			// the same instant, expressed in rotating time zones: validity is a function of the instant
+			zi++
+			t = t.In(zones[zi%len(zones)])
 			got := util.HasValidTLD(domain, t)
 			term := fmt.Sprintf("(%s, %s, %s)", cqBytes(domain), instantZ(t), cqBool(got))
 			if !seenV[term] {
@@ -127,6 +132,18 @@ func init() {
 					out.Violate("C18|valid-after-removal:"+k, "."+k+" is valid one second after its removal "+e.RemovalDate, k, false, true)
 				}
 				addValid(spell(k), rm.Add(-time.Second), "before-removal")
+			}
+			if e.RemovalDate != "" || i%40 == 0 {
+				for _, off := range []time.Duration{-time.Hour, -time.Second, 0, time.Second, time.Hour} {
+					inst := dl.Add(off)
+					ref := util.HasValidTLD("x."+k, inst)
+					for _, z := range zones[1:] {
+						if util.HasValidTLD("x."+k, inst.In(z)) != ref {
+							out.Violate("C18|zone-dependent:"+k, fmt.Sprintf("HasValidTLD(x.%s) at the instant %s answers %v in UTC but %v when the same instant is expressed in zone %s", k, inst.Format(time.RFC3339), ref, !ref, z),
+								map[string]interface{}{"tld": k, "instant": inst.Format(time.RFC3339), "zone": z.String()}, ref, !ref)
+						}
+					}
+				}
 			}
 			if !util.IsInTLDMap(strings.ToUpper(k)) || !util.IsInTLDMap(k) {
 				out.Violate("C18|not-in-map:"+k, "IsInTLDMap rejects a table key (case-insensitively)", k, true, false)
